@@ -8,7 +8,7 @@ for p in seeded/review/R-*${1:-}*.patch; do
   if ! git -C /repo apply --check $PWD/$p 2>/dev/null; then verdict=NOAPPLY; sig=""
   else
     out=$(selftest/quick_seed.sh $PWD/$p $prop 2>&1)
-    if echo "$out" | grep -q "^VIOLATION property=$prop"; then verdict=caught; sig=$(echo "$out" | grep -m1 "signature:" | sed 's/.*signature: //'); else verdict=MISSED; sig=""; fi
+    if echo "$out" | grep -a -q "^VIOLATION property=$prop"; then verdict=caught; sig=$(echo "$out" | grep -a -m1 "signature:" | sed 's/.*signature: //'); else verdict=MISSED; sig=""; fi
   fi
   (
     flock 9
